@@ -110,6 +110,39 @@ C18Classes(bg, p) ==
         /\ ExpTuple(tin.T.right, Cells(tin.seed[i], tin.rules.right)) = ExpTuple(tin.T.right, Cells(tin.seed[j], tin.rules.right))
               => p.lex[i].l = p.lex[j].l
 
+(* the same for the unknown entries, and for user rows that were given as 0,0,0 (they receive
+   the model's classes): their tuples are the expansions of THEIR rewritten features, and a
+   user row whose tuples coincide with a seed row's shares that row's connection ids *)
+C18Unk(bg, p) ==
+   LET su == CatSorted(tin.unk) IN
+   Len(p.unk) = Len(su) =>
+   \A k \in 1..Len(su) :
+      /\ RowMatches(bg.R[p.unk[k].r], ExpTuple(tin.T.left, Cells(su[k], tin.rules.left)))
+      /\ RowMatches(bg.L[p.unk[k].l], ExpTuple(tin.T.right, Cells(su[k], tin.rules.right)))
+      /\ \A i \in 1..m.nseed :
+           /\ ExpTuple(tin.T.left, Cells(su[k], tin.rules.left)) = ExpTuple(tin.T.left, Cells(tin.seed[i], tin.rules.left))
+                 => p.unk[k].r = p.lex[i].r
+           /\ ExpTuple(tin.T.right, Cells(su[k], tin.rules.right)) = ExpTuple(tin.T.right, Cells(tin.seed[i], tin.rules.right))
+                 => p.unk[k].l = p.lex[i].l
+(* user rows are interned AFTER training has pruned unused strings, so a user row whose tuples
+   coincide with a seed row's need not share its class (a pruned string gets a new id; the two
+   classes then differ in zero-weight features only).  What must hold: the feature ids of a user
+   row NAME the expansions of its own section-wise rewritten features. *)
+IdsNameExpansions(ids, map, tpls, cells) ==
+   /\ Len(ids) = Len(tpls)
+   /\ \A j \in 1..Len(tpls) :
+        LET e == Expand(tpls[j], cells, 0) IN
+        IF e.some THEN ids[j] # 0 /\ NameOf(map, ids[j]) = e.s ELSE ids[j] = 0
+C18User(bg, p, us) ==
+   (Len(p.user) = Len(us) /\ Len(m.userlabels) = Len(us)) =>
+   \A k \in 1..Len(us) :
+      LET lab == m.userlabels[k] IN
+      /\ IdsNameExpansions(m.fs[lab].l, m.lmap, tin.T.left, Cells(us[k], tin.rules.left))
+      /\ IdsNameExpansions(m.fs[lab].r, m.rmap, tin.T.right, Cells(us[k], tin.rules.right))
+      /\ ((us[k].l = 0 /\ us[k].r = 0 /\ us[k].c = 0) =>
+            /\ RowMatches(bg.R[p.user[k].r], ExpTuple(tin.T.left, Cells(us[k], tin.rules.left)))
+            /\ RowMatches(bg.L[p.user[k].l], ExpTuple(tin.T.right, Cells(us[k], tin.rules.right))))
+
 (* ---------------- C15: outputs are a function of the model state ---------------- *)
 Kinds == {"lex", "matrix", "unk", "left", "right", "cost"}
 Gen ==
@@ -125,7 +158,9 @@ Gen ==
             /\ A("C14", "surfaces-preserved", \A i \in 1..Len(E.surf_ok) : E.surf_ok[i])
             /\ (users[who] = users.mem => A("C14", "user-rows-trained-iff-000", C14User(p, users[who])))
             /\ A("C16", "bigram-rows-and-costs-are-the-model-image", BgRowsOK(E.bg) /\ BgCostOK(E.bg))
-            /\ A("C18", "class-tuples-are-expansions", C18Classes(E.bg, p)))
+            /\ A("C18", "class-tuples-are-expansions", C18Classes(E.bg, p))
+            /\ A("C18", "unknown-entries-class-tuples-are-expansions", C18Unk(E.bg, p))
+            /\ (users[who] = users.mem => A("C18", "user-rows-feature-ids-name-their-own-expansions", C18User(E.bg, p, users[who]))))
       /\ (E.compiled => /\ A("C14", "ids-inside-matrix-and-costs-16-bit", C14Ids(p) /\ C14Costs16(p))
                         /\ A("C16", "small-dictionary-agrees-with-matrix",
                              (StarListed(E.bg) /\ DevStarCollision) \/ (SmallAgrees(p, E.small.raw) /\ SmallAgrees(p, E.small.dual))))
